@@ -50,6 +50,16 @@ Definition lim_mut_spare (l : limited vbuf) : N := N.min (mut_spare (inner l)) (
 Definition lim_mut_has_spare (l : limited vbuf) : bool :=
   negb (limit l =? 0) && mut_has_spare (inner l).
 
+(** [Buf::as_slice]: the provided method builds the slice from [parts]; the owned and borrowed
+    byte containers override it with themselves (the same pointer, [len] bytes). [LimitedBuf]
+    does not override it, so it shows the pair of its [parts]. [None] stands for a panic. *)
+Definition buf_as_slice (b : vbuf) : option (N * N) := Some (base b, len b).
+Definition lim_buf_as_slice (l : limited vbuf) : option (N * N) := Some (lim_buf_parts l).
+(** A variant that slices the inner slice by the limit ([&self.buf.as_slice()[..self.limit]],
+    seeded change C14-k): out of range for a limit above the length. *)
+Definition lim_buf_as_slice_k (l : limited vbuf) : option (N * N) :=
+  if limit l <=? len (inner l) then Some (base (inner l), limit l) else None.
+
 (** The code before the repair (H6): [self.limit as u32]. Kept to state what was wrong. *)
 Definition lim_buf_parts_h6 (l : limited vbuf) : N * N :=
   let '(p, n) := buf_parts (inner l) in (p, N.min n (trunc32 (limit l))).
@@ -156,7 +166,7 @@ Definition in_alloc (b : vbuf) (i : iov) : Prop :=
     relative to the base of the buffer it belongs to. *)
 Inductive family := FBuf | FBufMut | FSlice | FMutSlice.
 Inductive bop :=
-  | Query            (* parts / iovecs, len / spare, is_empty / has_spare *)
+  | Query            (* parts / iovecs, len / spare, is_empty / has_spare, as_slice (Buf) *)
   | SetInit (n : N). (* only for the Mut families *)
 
 Record bcase := { c_family : family; c_bufs : list vbuf; c_limit : option N; c_ops : list bop }.
@@ -169,6 +179,9 @@ Fixpoint rels (bs : list vbuf) (is : list iov) : list Z :=
   | _, _ => []
   end.
 
+Definition rel_opt (b : vbuf) (o : option iov) : list Z :=
+  match o with Some i => rel b i | None => [(-1)%Z; (-1)%Z] end.
+
 Definition hd_buf (bs : list vbuf) : vbuf :=
   match bs with b :: _ => b | [] => {| base := 0; len := 0; cap := 0 |} end.
 
@@ -177,10 +190,11 @@ Definition query (f : family) (bs : list vbuf) (lim : option N) : list Z :=
   match f, lim with
   | FBuf, None =>
       let b := hd_buf bs in
-      rel b (buf_parts b) ++ [nz (buf_len b); bz (buf_is_empty b)]
+      rel b (buf_parts b) ++ [nz (buf_len b); bz (buf_is_empty b)] ++ rel_opt b (buf_as_slice b)
   | FBuf, Some l =>
       let b := hd_buf bs in let lb := {| inner := b; limit := l |} in
       rel b (lim_buf_parts lb) ++ [nz (lim_buf_len lb); bz (lim_buf_is_empty lb)]
+      ++ rel_opt b (lim_buf_as_slice lb)
   | FBufMut, None =>
       let b := hd_buf bs in
       rel b (mut_parts b) ++ [nz (mut_spare b); bz (mut_has_spare b)]
